@@ -147,8 +147,36 @@ def rnd16(rng):
     return rng.choice(B16) if rng.random() < 0.5 else rng.getrandbits(16)
 
 
+def gen_revisit_image(rng):
+    """directed family: an instruction at address k is executed, then overwritten by a store, then
+    executed again (k is the LAST program address half of the time, else anywhere)"""
+    pre = rng.randrange(0, 3)                 # padding NOP-like instructions in front
+    n_mid = rng.randrange(0, 3)
+    w_new = rng.choice([enc(9, 0), enc(10, 0), enc(8, 0), enc(12, 0), enc(11, 0), enc(3, 4000), rng.getrandbits(16)])
+    data_w = 3000 + rng.randrange(0, 50)
+    prog = []
+    prog += [enc(12, 0)] * pre
+    a_jump = len(prog)
+    prog.append(None)                          # BRZ k   (acc == 0 initially)
+    a_mod = len(prog)
+    prog.append(enc(1, data_w))                # LDA w_new
+    prog.append(None)                          # STO k
+    prog += [enc(rng.choice([9, 12, 8]), 0) for _ in range(n_mid)]
+    k = len(prog)
+    prog.append(enc(2, a_mod))                 # k: BRZ a_mod   (taken the first time)
+    tail = 0 if rng.random() < 0.5 else rng.randrange(1, 3)
+    prog += [enc(rng.choice([9, 10, 12]), 0) for _ in range(tail)]
+    prog[a_jump] = enc(2, k)
+    prog[a_mod + 1] = enc(0, k)
+    mem = {i: w for i, w in enumerate(prog)}
+    mem[data_w] = w_new
+    return [4096, sorted([a, v] for a, v in mem.items()), 0, 1, [mem[0]], [len(prog) - 1]]
+
+
 def gen_toy_image(rng, maxlen=12, selfmod=True):
     """a memory image with a program at 0.. and a few data cells; returns spec"""
+    if selfmod and rng.random() < 0.2:
+        return gen_revisit_image(rng)
     n = rng.randrange(1, maxlen + 1)
     mem = {}
     data_addrs = [rng.choice([n, n + 1, 100, 4094, 4095, rng.randrange(0, 4096)]) for _ in range(4)]
